@@ -191,7 +191,26 @@ def run(prog: Program, res: Result) -> None:
                 res.ok("C05.R2", site, what, "protocol hook")
                 continue
             if attr in SCALAR_VOCAB:
-                res.ok("C05.R2", site, what, "method of a builtin scalar value type (str, number, date, range)")
+                # a scalar's method is the builtin's only once the value IS that scalar: coerced by the filter's decorator, converted in
+                # this function, or narrowed by isinstance on the path here - a parameter annotation is a wish, filters receive any object
+                why_s = _scalar_known(prog, fi, v)
+                if why_s is None:
+                    if cfg is None:
+                        cfg = CFG(fi.node)
+                    why_s = _narrowed(prog, fi, cfg, node, v, attr)
+                if why_s:
+                    res.ok("C05.R2", site, what, f"method of a builtin scalar value type; {why_s}")
+                else:
+                    res.fail(
+                        "C05.R2",
+                        file=fi.file,
+                        line=node.lineno,
+                        qualname=fi.qualname,
+                        construct=f"{v}.{attr}",
+                        message=f"`.{attr}` is read on `{v}`, which can hold any context object here: nothing coerces or narrows it to the builtin type whose method this is meant to be, "
+                        f"so `{v}.{attr}(…)` calls a Python method of a user object (with template-supplied arguments) and prints what it returns",
+                        what=what,
+                    )
                 continue
             if attr in CONTAINER_ITERATION:
                 res.ok("C05.R2", site, what, "iteration of a mapping through its views")
@@ -549,6 +568,40 @@ def _is_data_expr(e: ast.AST, data: set[str]) -> bool:
         if isinstance(f, ast.Attribute) and f.attr in ("items", "values", "keys", "copy", "pop", "__liquid__") and _is_data_expr(f.value, data):
             return True
     return False
+
+
+def _scalar_known(prog: Program, fi: FunctionInfo, v: str) -> str | None:
+    """Why the variable holds a builtin scalar: coerced by a decorator of the filter, or every binding of it is a conversion."""
+    decos = [norm(d) for d in fi.node.decorator_list]
+    params = [p for p in fi.params() if p not in ("self", "cls")]
+    if params and v == params[0] and any(k in d for d in decos for k in ("string_filter", "math_filter", "liquid_filter", "sequence_filter", "array_filter")):
+        return f"first parameter of a filter wrapped by {[d for d in decos if 'filter' in d][0]} (coerced before the call)"
+    conv = {"str", "int", "float", "to_liquid_string", "_to_liquid_string", "to_int", "int_arg", "num_arg", "decimal_arg", "soft_str", "escape", "Markup", "repr", "len", "round", "abs", "Decimal", "bool", "sequence_arg", "list", "tuple", "sorted"}
+
+    def is_conv(x: ast.AST) -> bool:
+        return (isinstance(x, ast.Call) and (dotted(x.func) or "").split(".")[-1] in conv) or isinstance(x, (ast.Constant, ast.JoinedStr))
+
+    # the parameter is converted at the top of the function, under no condition: `left = sequence_arg(left)`
+    for st in fi.node.body:
+        if isinstance(st, ast.Assign) and any(isinstance(t, ast.Name) and t.id == v for t in st.targets) and is_conv(st.value):
+            return f"converted at the top of the function (`{norm(st, 50)}`)"
+        # … or only when it is not the scalar yet: `if not isinstance(v, str): v = str(v)`
+        if isinstance(st, ast.If) and isinstance(st.test, ast.UnaryOp) and isinstance(st.test.op, ast.Not) and isinstance(st.test.operand, ast.Call) and norm(st.test.operand.func) == "isinstance" and st.test.operand.args and norm(st.test.operand.args[0]) == v:
+            if any(isinstance(b, ast.Assign) and any(isinstance(t, ast.Name) and t.id == v for t in b.targets) and is_conv(b.value) for b in st.body) and not st.orelse:
+                return f"converted unless already of that type (`{norm(st.test, 50)}`)"
+    # helpers of the printers: every caller is a __str__ / *_str function, whose operands are parse-time text, not render data
+    callers = [g for g in prog.all_functions() if g is not fi and any(isinstance(c, ast.Call) and isinstance(c.func, ast.Name) and c.func.id == fi.name for c in ast.walk(g.node))]
+    if fi.cls is None and callers and all("str" in g.name.lower() for g in callers):
+        return f"called only from printers ({sorted({g.qualname for g in callers})[:3]}): operands are parse-time text"
+    vals = []
+    for n in ast.walk(fi.node):
+        if isinstance(n, ast.Assign) and any(isinstance(t, ast.Name) and t.id == v for t in n.targets):
+            vals.append(n.value)
+        elif isinstance(n, ast.AnnAssign) and isinstance(n.target, ast.Name) and n.target.id == v and n.value is not None:
+            vals.append(n.value)
+    if v not in fi.params() and vals and all(is_conv(x) for x in vals):
+        return "bound from a conversion only"
+    return None
 
 
 def _engine_made(fi: FunctionInfo, v: str) -> bool:
